@@ -270,7 +270,25 @@ func reportFailure(w *World, o *Oblig, path, prop, scratch string) string {
 		"verdict":       "no-failing-input-found",
 	}
 	verdict := "no-failing-input-found"
-	if o.enc != nil && o.Kind != "cover" && o.Kind != "engine" {
+	if o.enc != nil && o.Kind != "cover" && o.Kind != "engine" && o.enc.fc != nil && o.enc.fc.ReplayTmpl != "" {
+		src, vals, why := o.enc.templateReplay(o, scratch)
+		rec["model"] = vals
+		if src == "" {
+			rec["replay"] = "not generated: " + why
+		} else {
+			rec["replay_test"] = src
+			rec["replay_pkg"] = o.enc.fn.Pkg.Pkg.Path()
+			v, out := runReplay(w, o.enc.fn.Pkg.Pkg.Path(), src, scratch)
+			rec["replay_output"] = out
+			rec["replay_verdict"] = v
+			if v == "REPRODUCED" {
+				verdict = "REPRODUCED"
+				rec["verdict"] = "REPRODUCED"
+			} else {
+				rec["verdict"] = "no-failing-input-found (model replay: " + v + ")"
+			}
+		}
+	} else if o.enc != nil && o.Kind != "cover" && o.Kind != "engine" {
 		params, why, ok := o.enc.extractCE(o, scratch)
 		if !ok {
 			rec["counterexample"] = "none: " + why
